@@ -342,7 +342,7 @@ PROPS["C05"] = dict(
     bound=dict(quick="every 29th tree (about 50 of 1 448) for every pair and provider pair; 2 000 ECDSA signatures per curve/provider",
                thorough="all trees; 20 000 ECDSA signatures per curve/provider"),
     assumptions=["fixed committed key pool instead of freshly generated keys (DESIGN 2.6)"],
-    budget_s=dict(quick=900, thorough=3300),
+    budget_s=dict(quick=900, thorough=5400),
 )
 
 # ---------------------------------------------------------------- C10
@@ -362,7 +362,7 @@ PROPS["C10"] = dict(
     runs=lambda tier: [dict(harness="roundtrip", args=["--param", 0])] + ([dict(harness="roundtrip", args=["--param", 1])] if tier == "thorough" else []),
     bound=dict(quick="depth 4", thorough="frontier closed (all reachable states of the alphabet; depth bound 16 not reached), both providers"),
     assumptions=["clock values T0 and T0+1000 stand for arbitrary clocks"],
-    budget_s=dict(quick=900, thorough=3300),
+    budget_s=dict(quick=900, thorough=5400),
 )
 
 # ---------------------------------------------------------------- C18
@@ -371,10 +371,11 @@ _TSAN_ENV = {"TSAN_OPTIONS": "log_path=tsan.log:exitcode=0:halt_on_error=0:repor
 PROPS["C18"] = dict(
     level="model_checking",
     technique="preemption-bounded stateless exploration of thread interleavings of the real code under a cooperative scheduler (CHESS-style iterative context bounding); separate free-running ThreadSanitizer pass for unsynchronised accesses",
-    level_text=("2 threads (3 for HS256 in the thorough tier), each with its own builder and checker and a shared read-only keyring, "
+    level_text=("2 threads (3 for HS256 in the thorough tier), each with its own builder and checker and a shared read-only keyring "
+                "that is loaded anew for every schedule (once never used before, once after one sequential body), "
                 "run generate + verify(own) + verify(bad) + verify(good) for HS256, EdDSA, RS256 and ES256 on both providers; the "
                 "threads are real pthreads serialised by engine/sched.c, with a scheduling point at every allocator call of libjwt "
-                "and jansson and every time() call (about 110 points per thread); every schedule with at most 1 preemption (quick) / "
+                "and jansson, every OPENSSL_malloc/free call libjwt itself makes and every time() call (about 110 points per thread); every schedule with at most 1 preemption (quick) / "
                 "2 preemptions (thorough, all four algorithms with 2 threads) is executed and each thread's token and verdicts must equal its "
                 "sequential run.  Because the scheduler's hand-offs are happens-before edges, data races are looked for "
                 "separately: the same bodies free-running on 8 threads under ThreadSanitizer"),
@@ -385,9 +386,9 @@ PROPS["C18"] = dict(
     runs=lambda tier: [dict(harness="conc", args=["--param", 0], case_timeout=900), dict(harness="conc", args=["--param", 1], case_timeout=900),
                        dict(harness="conc", variant="tsan", args=["--param", 8], env=_TSAN_ENV, shards=2),
                        dict(harness="conc", variant="tsan", args=["--param", 9], env=_TSAN_ENV, shards=2)],
-    bound=dict(quick="all schedules with <= 1 preemption, 2 threads, 4 algorithms x 2 providers", thorough="<= 2 preemptions for all four algorithms (2 threads); <= 1 for 3 threads (HS256)"),
+    bound=dict(quick="all schedules with <= 1 preemption, 2 threads, 4 algorithms x 2 providers x fresh/used keyring", thorough="<= 2 preemptions for all four algorithms (2 threads); <= 1 for 3 threads (HS256)"),
     assumptions=["TSan cannot see races inside the uninstrumented OpenSSL/GnuTLS/jansson libraries"],
-    budget_s=dict(quick=900, thorough=3300),
+    budget_s=dict(quick=900, thorough=5400),
 )
 
 # ---------------------------------------------------------------- C20
